@@ -500,7 +500,7 @@ def mainLoop : Nat → List Key → M Unit
 
 /-- `run_to_completion(state, external_event)` -/
 def runToCompletion (fuel : Nat) (ev : Match.Ev) : M Unit := do
-  modifyRest fun r => { r with queue := [{ ev := ev }], outgoing := [], cleared := [] }
+  modifyRest fun r => { r with queue := [{ ev := ev }], outgoing := [], cleared := [], caught := [] }
   cleanUpState
   mainLoop fuel []
 
